@@ -113,10 +113,6 @@ pub fn run(tier: Tier) -> i32 {
             acc.count("prerequisite_failed_writer_error_(C01)", 1);
             return;
         };
-        if !vlib::fmt::decode_file(&bytes, Some(spec.cfg.effective_interval())).map(|l| l.entries == entries).unwrap_or(false) {
-            acc.count("prerequisite_failed_file_not_valid_(C01/C09)", 1);
-            return;
-        }
         if let Err(msg) = check_open(&bytes) {
             acc.violation(Violation {
                 signature: format!("open;{name}"),
